@@ -323,7 +323,7 @@ class QueryGen:
 # mutation: single-edit neighbours
 # ---------------------------------------------------------------------------
 SIGMA = list("$@.[](),:?*!=<>&|'\"\\/-+_019eEabflnrstuAFDC ") + ["\n", "\t", "\r", "\u0001", "\u007f", "é", "퟿",
-                                                               "", "😀", "x", "8", "#", "%", "{", "}", ";", "~", "^", "`"]
+                                                               "", "😀", "x", "8", "#", "%", "{", "}", ";", "~", "^", "`", "\x0c", "\x0b", "\xa0", "\u2003", "\x1f", "\x85", "\u2028", "\ufeff", "\x00"]
 
 
 def neighbours(text: str, rng: random.Random, k: int) -> List[str]:
